@@ -52,27 +52,17 @@ func verifDeploy(n int) *verifDeployment {
 		if err != nil {
 			rt.Cut("configuration refused at start-up")
 		}
-		if rt.Prop("C12") || rt.Prop("C02") {
-			// every component agrees on a log's identity: the origin a component holds for an ID is
-			// an origin whose ID it is, and the witness map has an entry under the ID the others use
-			rt.Assert(rt.LogID(l.Origin) == l.ID, "C12/feeder-side-id-is-id-of-its-origin")
-			wi, ok := known[l.ID]
-			rt.Assert(ok, "C12/witness-files-the-log-under-the-shared-id")
-			if ok {
-				rt.Assert(rt.LogID(wi.Origin) == l.ID, "C12/witness-origin-matches-its-id")
-				rt.Assert(wi.Origin == l.Origin, "C12/witness-and-feeders-expect-the-same-origin")
-			}
-		}
+		verifConfigAsserts(known, l, d.pks[i])
 		logs = append(logs, l)
 		d.ids = append(d.ids, l.ID)
 		d.keys = append(d.keys, rt.UFU64("keyOfText", d.pks[i]))
-		rt.RegisterKey(d.keys[i])
+		rt.RegisterKey(d.keys[i], rt.UFStr("nameOfText", d.pks[i]))
 	}
 	d.wk, d.witName = rt.U64("wkey"), rt.Str("witName")
 	for _, k := range d.keys {
 		rt.Assume(k != d.wk)
 	}
-	rt.RegisterKey(d.wk)
+	rt.RegisterKey(d.wk, d.witName)
 	if rt.Param("store", 0) == 1 {
 		d.store = psql.NewPersistence(rt.NewDB(1))
 	} else {
@@ -99,6 +89,57 @@ func verifDeploy(n int) *verifDeployment {
 	}
 	d.handler = bastion.VerifNewHandler(witnessAdapter{w: w}, logs, &rt.Verifier{K: d.wk, N: d.witName})
 	return d
+}
+
+// verifConfigAsserts: every component agrees on a log's identity and key. The origin a component
+// holds for an ID is an origin whose ID it is, the witness map has an entry under the ID the
+// others use, and both sides verify that log's checkpoints with the key configured for it.
+func verifConfigAsserts(known map[string]witness.LogInfo, l config.Log, pk string) {
+	if !(rt.Prop("C12") || rt.Prop("C02")) {
+		return
+	}
+	rt.Assert(rt.LogID(l.Origin) == l.ID, "C12/feeder-side-id-is-id-of-its-origin")
+	wi, ok := known[l.ID]
+	rt.Assert(ok, "C12/witness-files-the-log-under-the-shared-id")
+	if !ok {
+		return
+	}
+	rt.Assert(rt.LogID(wi.Origin) == l.ID, "C12/witness-origin-matches-its-id")
+	rt.Assert(wi.Origin == l.Origin, "C12/witness-and-feeders-expect-the-same-origin")
+	want := rt.UFU64("keyOfText", pk)
+	wv, isModel := wi.SigV.(*rt.Verifier)
+	rt.Assert(isModel && wv.K == want, "C02/witness-verifies-with-the-key-configured-for-that-log")
+	fv, isModel := l.Verifier.(*rt.Verifier)
+	rt.Assert(isModel && fv.K == want, "C02/feeders-verify-with-the-key-configured-for-that-log")
+}
+
+// VerifConfig is H-CFG: the repository's two configuration builders (LogConfig.AsLogMap for the
+// witness, config.NewLog for feeders, bastion and distributor) on one arbitrary configuration
+// list, in the string domain so that any text processing of origins and keys is exact.
+func VerifConfig() {
+	n := rt.Param("logs", 2)
+	var lc LogConfig
+	var origins, pks []string
+	for i := 0; i < n; i++ {
+		origin, pk := rt.Str("origin"), rt.Str("pk")
+		lc.Logs = append(lc.Logs, LogInfo{Origin: origin, PublicKey: pk})
+		origins, pks = append(origins, origin), append(pks, pk)
+	}
+	known, err := lc.AsLogMap()
+	rt.Cover(err != nil, "cfg/refused-at-start-up")
+	if err != nil {
+		return
+	}
+	rt.Assert(len(known) == n, "C12/one-witness-entry-per-configured-log")
+	for i := 0; i < n; i++ {
+		l, err := config.NewLog(origins[i], pks[i], "https://log.example")
+		if err != nil {
+			rt.Assert(false, "C12/feeder-side-refuses-a-configuration-the-witness-accepted")
+			return
+		}
+		verifConfigAsserts(known, l, pks[i])
+	}
+	rt.Cover(true, "cfg/accepted")
 }
 
 // VerifBastion is H-BAST: one request through the real ServeHTTP, handleUpdate, witnessAdapter,
